@@ -18,11 +18,12 @@ use vkit::*;
 /// (rounded difference, squared length, sqrt, division, cross product with cancellation 1/sin, second
 /// normalisation, second cross product; on both sides when S = f64).
 const KR: f64 = 128.0;
-/// translation entries / images of points: budget in units of eps * (magnitude of the point): three products,
-/// three additions, on both sides.
-const KT: f64 = 32.0;
-/// change of basis with an orthonormal basis that is itself only orthonormal to rounding.
-const KB: f64 = 32.0;
+/// translation entries / images of points: budget in units of eps * (largest component of the point): three
+/// products and three additions against a unit row (<= 3 sqrt(3) eps each side, ~10.4 in total).
+const KT: f64 = 64.0;
+/// change of basis with an orthonormal basis that is itself only orthonormal to rounding (~3 eps per entry of
+/// B^T B - I, ~9 eps |origin| through a product, plus ~10 eps of evaluation: ~20 in total).
+const KB: f64 = 64.0;
 /// views closer to parallel than this (sine of the angle between up and the view direction, measured on the
 /// rounded inputs) are outside the regime check; the generator keeps the sine above 0.12.
 const MIN_SIN: f64 = 0.05;
